@@ -90,6 +90,11 @@ invariant InvR0 [C04] = R0(store)
 invariant InvR1 [C04] = R1(store)
 invariant InvR2 [C04] = R2(store)
 invariant InvR3 [C04] = R3(store)
+// base of the induction: the empty store of a freshly deployed contract satisfies the registry invariants; the first
+// deployment writes five configuration keys only (module upgrade), none of them under a registry prefix
+lemma emptyStoreInv [C04]: forall s Store :: (forall x Bytes {s.opt(x)} :: !s.has(x)) ==> Rx(s) && R0(s) && R1(s) && R2(s) && R3(s)
+// the addresses of the Balance and Netmap contracts are stored by the first deployment and never removed
+invariant InvAddrs [C05] = store.has("balanceScriptHash") && store.has("netmapScriptHash")
 // a stored alias is never the empty string (it always contains the dot between name and zone)
 invariant InvAlias [C04] = forall id Bytes {store.opt(ak(id))} :: store.has(ak(id)) ==> len(store.get(ak(id))) != 0
 
@@ -240,6 +245,7 @@ func OnNEP11Payment(a, b, c, d)
 module fee
 props C05
 use common core
+relies container registry InvAddrs
 dialect neovm
 
 // C05: a successful registration makes exactly len(committee) transferX calls to the Balance contract, the j-th moving
@@ -257,8 +263,8 @@ func checkNiceNameAvailable(nnsContractAddr, domain) (r)
        && xcalls("balanceOf").len == old(xcalls("balanceOf")).len
   ensures forall j Int {xcalls("transferX")[j]} :: 0 <= j && j < old(xcalls("transferX")).len ==> xcalls("transferX")[j] == old(xcalls("transferX"))[j]
 
+// (the two contract addresses are stored: registry invariant InvAddrs, relied on)
 func PutNamed(container, signature, publicKey, token, name, zone)
-  requires store.has("balanceScriptHash") && store.has("netmapScriptHash")
   ensures [C05] W(alphabet())
   ensures [C05] xcalls("transferX").len == old(xcalls("transferX")).len + len(committee())
   ensures [C05] asint(cres("balanceOf", old(xcalls("balanceOf")).len)) >= fee(name, old(xcalls("config")).len) * len(committee())
@@ -588,7 +594,7 @@ func PutContainerSize(epoch, cid, usedSize, pubKey)
 
 /*@
 module upgrade
-props C16
+props C05 C16
 use common core
 use common vote
 dialect neovm
@@ -605,6 +611,10 @@ func _deploy(data, isUpdate)
   ensures [C16] isUpdate ==> forall a Bytes {store.opt(a)} :: len(a) == 32 || len(a) == 57 ==> !store.has(a)
   ensures [C16] isUpdate ==> forall k Bytes {store.opt(k)} :: len(k) != 32 && len(k) != 33 && len(k) != 57 && len(k) != 58 && k != "notary" && k != "ballots" ==> store.opt(k) == old(store).opt(k)
   ensures [C16] isUpdate ==> notifs == old(notifs)
+  // the first deployment stores the addresses of Netmap and Balance (base of the registry invariant InvAddrs; an update keeps them: frame above)
+  ensures [C05,C16] !isUpdate ==> store.has("balanceScriptHash") && store.has("netmapScriptHash")
+  ensures [C04,C16] !isUpdate ==> forall k Bytes {store.opt(k)} :: k != "netmapScriptHash" && k != "balanceScriptHash" && k != "identityScriptHash" && k != "nnsScriptHash" && k != "nnsRoot"
+        ==> store.opt(k) == old(store).opt(k)
   loop 0
     invariant forall j Int {$it.key(j)} :: 0 <= j && j < $it.pos && len($it.key(j)) == 32 ==> !store.has($it.key(j)) && store.opt("x" ++ $it.key(j)) == old(store).opt($it.key(j))
     invariant forall j Int {$it.key(j)} :: 0 <= j && j < $it.pos && len($it.key(j)) == 57 ==> !store.has($it.key(j)) && store.opt("o" ++ $it.key(j)) == old(store).opt($it.key(j))
